@@ -102,8 +102,8 @@ func (s *c08Scanner) Scan(ctx context.Context, r *scan.Request) (scan.Result, er
 type c08Logger struct {
 	delay time.Duration
 	real  log.Logger
-	mu   sync.Mutex
-	errs map[string]int
+	mu    sync.Mutex
+	errs  map[string]int
 }
 
 func (l *c08Logger) Error(err error) {
